@@ -957,6 +957,52 @@ def _key_function(fn, ex, key):
   return None
 
 
+def _lookups_last(fn, ex, s):
+  """Does the sort `s` (a sorted(...) / <list>.sort(...) call) put the #lookup nodes at the END of
+  the sequence -- the end the LIFO scheduler takes work from? Raises AnalysisError when the key
+  cannot be followed."""
+  key = kwarg(s, "key")
+  rev = kwarg(s, "reverse")
+  kf = _key_function(fn, ex, key) if key is not None else None
+  if kf is None:
+    raise AnalysisError("%s: sort key is not a one-argument function" % fn.qualname)
+  kv, kbody = kf
+  first = kbody.elts[0] if isinstance(kbody, ast.Tuple) and kbody.elts else kbody
+  # first component: [not] <n>.col_id.startswith('#lookup')
+  neg = False
+  e = first
+  while isinstance(e, ast.UnaryOp) and isinstance(e.op, ast.Not):
+    neg, e = not neg, e.operand
+  is_lookup_test = isinstance(e, ast.Call) and isinstance(e.func, ast.Attribute) and \
+      e.func.attr == "startswith" and text(e.func.value) == "%s.col_id" % kv and \
+      len(e.args) == 1 and isinstance(e.args[0], ast.Constant) and e.args[0].value == "#lookup"
+  if not is_lookup_test:
+    raise AnalysisError("%s: first key component is not a #lookup test" % fn.qualname)
+  rev = ex.expand(rev) if rev is not None else None
+  if rev is not None and not isinstance(rev, ast.Constant):
+    raise AnalysisError("%s: reverse= is not a constant" % fn.qualname)
+  reverse = bool(rev.value) if rev is not None else False
+  # Items are popped from the END of the list. Ascending sort puts False before True.
+  lookup_key = (not True) if neg else True          # key value of a lookup node
+  return (lookup_key is True) != reverse            # ascending: True last; reversed: False last
+
+
+def _work_items_in_place(w, f2, v):
+  """A work list built in place -- [WorkItem(n, ...) for n in sorted(<nodes>, key=...)] -- instead
+  of through _make_sorted_work_items: True / False: it does / does not put the #lookup nodes where
+  the scheduler takes them first; None: not of that shape."""
+  v = strip_wrappers(v, names=("list",))
+  if not (isinstance(v, (ast.ListComp, ast.GeneratorExp)) and len(v.generators) == 1 and
+          not v.generators[0].ifs and isinstance(v.generators[0].target, ast.Name)):
+    return None
+  wi = work_item(w, v.elt)
+  it = v.generators[0].iter
+  if wi is None or text(wi["node"]) != v.generators[0].target.id or \
+      not (isinstance(it, ast.Call) and dotted(it.func) == "sorted"):
+    return None
+  return _lookups_last(f2, expander(f2), it)
+
+
 def r4_lookups_first(run, w):
   R4 = run.rule("C06-R4", "_make_sorted_work_items schedules #lookup nodes before all others",
                 floor=4)
@@ -981,30 +1027,7 @@ def r4_lookups_first(run, w):
     in_place = s.func.value.id
   else:
     s = sorts[0]
-  key = kwarg(s, "key")
-  rev = kwarg(s, "reverse")
-  kf = _key_function(fn, ex, key) if key is not None else None
-  if kf is None:
-    raise AnalysisError("_make_sorted_work_items: sort key is not a one-argument function")
-  kv, kbody = kf
-  first = kbody.elts[0] if isinstance(kbody, ast.Tuple) and kbody.elts else kbody
-  # first component: [not] <n>.col_id.startswith('#lookup')
-  neg = False
-  e = first
-  while isinstance(e, ast.UnaryOp) and isinstance(e.op, ast.Not):
-    neg, e = not neg, e.operand
-  is_lookup_test = isinstance(e, ast.Call) and isinstance(e.func, ast.Attribute) and \
-      e.func.attr == "startswith" and text(e.func.value) == "%s.col_id" % kv and \
-      len(e.args) == 1 and isinstance(e.args[0], ast.Constant) and e.args[0].value == "#lookup"
-  if not is_lookup_test:
-    raise AnalysisError("_make_sorted_work_items: first key component is not a #lookup test")
-  rev = ex.expand(rev) if rev is not None else None
-  if rev is not None and not isinstance(rev, ast.Constant):
-    raise AnalysisError("_make_sorted_work_items: reverse= is not a constant")
-  reverse = bool(rev.value) if rev is not None else False
-  # Items are popped from the END of the returned list. Ascending sort puts False before True.
-  lookup_key = (not True) if neg else True          # key value of a lookup node
-  lookups_last_in_list = (lookup_key is True) != reverse   # ascending: True last; reversed: False last
+  lookups_last_in_list = _lookups_last(fn, ex, s)
   # the returned list preserves the sorted order
   def from_sorted(it, at):
     """Is iterable `it`, evaluated at node `at`, the sorted sequence (in its sorted order)?"""
@@ -1074,8 +1097,9 @@ def r4_lookups_first(run, w):
                              if isinstance(x, ast.Call)] for v in vs),
              "%s: cannot follow where the work items handed to _update_loop come from (`%s`)"
              % (q, short(a) if a is not None else "?"))
-        ok = bool(vs) and all(isinstance(v, ast.Call) and
-                              endswith(dotted(v.func), "self._make_sorted_work_items") for v in vs)
+        ok = bool(vs) and all((isinstance(v, ast.Call) and
+                               endswith(dotted(v.func), "self._make_sorted_work_items")) or
+                              _work_items_in_place(w, f2, v) is True for v in vs)
         run.ob(R4, q, "self._update_loop(self._make_sorted_work_items(...))", "the "
                "full-recalculation loop starts from the lookups-first order",
                ok, fi=f2.fi, node=c)
@@ -1088,7 +1112,13 @@ def r4_lookups_first(run, w):
              not [x for x in opaque_parts(w, f2.fi, v, known=("_make_sorted_work_items",))
                   if isinstance(x, ast.Call)],
              "%s: cannot follow what the work list is refilled with (`%s`)" % (q, short(v)))
-        ok = isinstance(v, ast.Call) and endswith(dotted(v.func), "self._make_sorted_work_items")
+        ok = (isinstance(v, ast.Call) and
+              endswith(dotted(v.func), "self._make_sorted_work_items")) or \
+            _work_items_in_place(w, f2, v) is True
+        if not ok:
+          need(_work_items_in_place(w, f2, v) is False or not opaque_parts(w, f2.fi, v),
+               "%s: cannot tell whether the refilled work list orders #lookup nodes first (`%s`)"
+               % (q, short(v)))
         run.ob(R4, q, "work_items = self._make_sorted_work_items(...)", "when the stack runs dry it "
                "is refilled in the lookups-first order", ok, fi=f2.fi, node=x)
 
